@@ -103,12 +103,15 @@ def run_impl(case):
                 except Exception as e:  # noqa
                     out["get"] = {"exc": type(e).__name__}
                 await mem.delete(case["key"])
-                await mem.set_many({case["key"]: v})
+                await mem.set_many({"zz0": 41, case["key"]: v, "zz1": 43})       # the value travels between two other pairs
                 st2 = mem.store[case["key"]][1]
                 try:
-                    out["many"] = (await mem.get_many(case["key"], default=serrun.DEFAULT))[0]
+                    r = await mem.get_many("zz-missing", case["key"], "zz1", "zz0", default=serrun.DEFAULT)
+                    aligned = len(r) == 4 and r[0] is serrun.DEFAULT and type(r[2]) is int and r[2] == 43 and type(r[3]) is int and r[3] == 41
+                    out["many"] = r[1] if aligned else {"exc": "MISALIGNED " + repr(r)[:60]}
                 except Exception as e:  # noqa
                     out["many"] = {"exc": type(e).__name__}
+                await mem.delete_many("zz0", "zz1")
                 out["stored"] = st
                 out["stored_same"] = (type(st) is type(st2) and st == st2)
             except Exception as e:  # noqa  (encode failed)
